@@ -937,25 +937,30 @@ func (c *Conn) handleReturn(ctx context.Context, ret rpccp.Return, releaseRet ca
 	}
 	c.mu.Unlock()
 
-	// Send disembargoes.  Failing to send one of these just never lifts
-	// the embargo on our side, but doesn't cause a leak.
-	//
-	// TODO(soon): make embargo resolve to error client.
+	// Send disembargoes.  If one cannot be sent, the embargo would never
+	// be lifted and every call on the embargoed capability would wait
+	// forever: resolve it to an error instead.
 	for i := range pr.disembargoes {
 		msg, send, release, err := c.transport.NewMessage(ctx)
 		if err != nil {
-			c.report(errorf("incoming return: send disembargo: create message: %v", err))
+			err = errorf("incoming return: send disembargo: create message: %v", err)
+			c.report(err)
+			c.failEmbargo(pr.disembargoes[i].id, err)
 			continue
 		}
 		if err := pr.disembargoes[i].buildDisembargo(msg); err != nil {
 			release()
-			c.report(annotate(err).errorf("incoming return"))
+			err = annotate(err).errorf("incoming return")
+			c.report(err)
+			c.failEmbargo(pr.disembargoes[i].id, err)
 			continue
 		}
 		err = send()
 		release()
 		if err != nil {
-			c.report(errorf("incoming return: send disembargo: %v", err))
+			err = errorf("incoming return: send disembargo: %v", err)
+			c.report(err)
+			c.failEmbargo(pr.disembargoes[i].id, err)
 			continue
 		}
 	}
